@@ -98,16 +98,19 @@ func parseDestinationAndHeader(mls *MetaLeaseSet, data []byte) ([]byte, error) {
 // validateMinSize validates that data meets minimum MetaLeaseSet size requirements.
 // Returns error if data is too short to contain a valid MetaLeaseSet.
 func validateMinSize(dataLen int) error {
-	if dataLen < META_LEASESET_MIN_SIZE {
+	// Only the fixed header is required up front: every later stage checks the
+	// length of its own fields. META_LEASESET_MIN_SIZE assumes a 64-byte signature;
+	// a well-formed MetaLeaseSet of a DSA-SHA1 destination is shorter.
+	if dataLen < META_LEASESET_HEADER_MIN_SIZE {
 		err := oops.
 			Code("meta_leaseset_too_short").
 			With("data_length", dataLen).
-			With("minimum_required", META_LEASESET_MIN_SIZE).
-			Errorf("data too short for MetaLeaseSet: got %d bytes, need at least %d", dataLen, META_LEASESET_MIN_SIZE)
+			With("minimum_required", META_LEASESET_HEADER_MIN_SIZE).
+			Errorf("data too short for MetaLeaseSet: got %d bytes, need at least %d", dataLen, META_LEASESET_HEADER_MIN_SIZE)
 		log.WithFields(logger.Fields{
 			"at":          "validateMinSize",
 			"data_length": dataLen,
-			"min_size":    META_LEASESET_MIN_SIZE,
+			"min_size":    META_LEASESET_HEADER_MIN_SIZE,
 		}).Error(err.Error())
 		return err
 	}
